@@ -20,6 +20,17 @@ def extra(ctx):
                 "tuple of encodings": lambda: UnicodeDammit(body, (carrier,), smart_quotes_to=mode),
                 "carrier in upper case": lambda: UnicodeDammit(body, [carrier.upper()], smart_quotes_to=mode),
             }
+            if enc is not None and enc.lower() == carrier.lower() and not (mode is None and carrier == "windows-1252"):
+                # the carrier is reached only after another candidate has been tried and has failed (the bytes are not UTF-8)
+                spellings["carrier tried second: known_definite_encodings=['utf-8', carrier]"] = \
+                    lambda: UnicodeDammit(body, known_definite_encodings=["utf-8", carrier], smart_quotes_to=mode)
+                spellings["carrier tried second: known_definite_encodings=['utf-8'], user_encodings=[carrier]"] = \
+                    lambda: UnicodeDammit(body, known_definite_encodings=["utf-8"], user_encodings=[carrier], smart_quotes_to=mode)
+                spellings["carrier tried third: ['ascii', 'utf-8', carrier]"] = \
+                    lambda: UnicodeDammit(body, ["ascii", "utf-8", carrier], smart_quotes_to=mode)
+                if carrier == "windows-1252":
+                    spellings["no encoding named at all (utf-8 fails, windows-1252 is the fallback)"] = \
+                        lambda: UnicodeDammit(body, smart_quotes_to=mode)
             for name, call in spellings.items():
                 with warnings.catch_warnings():
                     warnings.simplefilter("ignore")
